@@ -8,7 +8,8 @@ import posixpath
 import vlib, gen, static_pipeline as sp, map_pipeline as mp
 
 # (a directory name with characters that mean something to String.prototype.replace: paths are data)
-FILES = {"f1": "/w/app/one.js", "f2": "/w/l$&ib $'x/two.js"}
+# and a file directly under the root directory (containers run /server.js)
+FILES = {"f1": "/one.js", "f2": "/w/l$&ib $'x/two.js"}
 CFG = dict(sp.FULL_CFG, chainSourceMap=True)
 
 
@@ -117,7 +118,7 @@ def run(seed, tier, extra_cases=None, use_cache=True):
         progs.append(gen.Gen(prng, max_depth=prng.choice([2, 3, 4]), multiline=True).program())
     for k, code in enumerate(progs):
         kind = prng.choice(["none", "inline", "inline"])
-        c = mp.make_case(prng, code, kind, True, prng.random() < 0.5, prng.choice(["random", "sparse", "late", "dense"]), file="/w/app/one.js")
+        c = mp.make_case(prng, code, kind, True, prng.random() < 0.5, prng.choice(["random", "sparse", "late", "dense"]), file=FILES["f1"])
         v = "prb%d" % k
         tx[v] = c["code"]
         probe_versions.append(v)
@@ -143,7 +144,7 @@ def run(seed, tier, extra_cases=None, use_cache=True):
                 mo = json.loads(mj)
                 srcs = mo.get("sources", [])
                 maps["%s|%s" % (f, v)] = [{"gl": t[0], "gc": t[1], "mapped": t[2] is not None,
-                                          "src": posixpath.normpath(os.path.dirname(f) + "/" + srcs[t[2]]) if t[2] is not None else "",
+                                          "src": posixpath.normpath(posixpath.join(os.path.dirname(f), srcs[t[2]])) if t[2] is not None else "",
                                           "sl": t[3] if t[2] is not None else 0,
                                           "sc": t[4] if t[2] is not None else 0, "name": ""}
                                          for t in sorted(vlib.decode_mappings(mo["mappings"]), key=lambda t: (t[0], t[1]))]
